@@ -16,6 +16,7 @@ typedef struct { char name[24]; long n, err_allowed, na, bad, stale; } opstat_t;
 static struct { opstat_t f[MAXOPF]; int nf; long tick; int stop; } G;
 typedef struct { volatile int active; bc_t c; } slot13_t;
 static slot13_t *g_slot;
+static int g_replay_mode;
 
 static opstat_t *op_get(const char *name)
 {
@@ -47,7 +48,7 @@ static void chk(const bc_t *c)
     {
         return;
     }
-    if (++G.tick >= 512)
+    if (++G.tick >= 512 && !g_replay_mode)
     {
         G.tick = 0;
         if (mx_deadline_hit())
@@ -65,6 +66,11 @@ static void chk(const bc_t *c)
     if (g_slot)
     {
         g_slot->active = 0;
+    }
+    if (r == RET_ERR_UNEXPECTED && (c->d1 > 64 || c->d2 > 64 || c->d3 > 64))
+    {
+        /* operands above 4096 bits are beyond the largest supported key size (PSTM_MAX_SIZE = 3 x 4096 bits): an error code is acceptable there */
+        r = RET_ERR_ALLOWED;
     }
     f = op_get(opname[c->op]);
     if (r == RET_NA)
@@ -94,7 +100,14 @@ static void chk(const bc_t *c)
         snprintf(res.what, sizeof(res.what), "%s", what);
         snprintf(res.outcome, sizeof(res.outcome), "%s:%s", opname[c->op], retname[r]);
         res.trace_hash = fnv1a(res.key, strlen(res.key), FNV0);
-        mx_record(&res);
+        if (g_replay_mode)
+        {
+            fprintf(stderr, "  VIOLATION key=%s desc=%s\n    %s\n", res.key, res.desc, res.what);
+        }
+        else
+        {
+            mx_record(&res);
+        }
     }
 }
 
@@ -664,8 +677,8 @@ int main(int argc, char **argv)
         "Oracle: value and sign equal to the exact result, result clamped, no negative zero (stale non-zero digits above 'used' are only counted, outcome "
         "exact-but-stale-high-digits); invmod must return the residue in [0,m) for a<m (kind unreduced-result otherwise); an error code is accepted (outcome class "
         "error-returned, not non-trivial) for: division/reduction by zero, invmod without inverse or hitting the 4096-iteration bound, even or wrongly sized exptmod "
-        "modulus, exponent 0 or >= P (documented restrictions), 2expt beyond 128 digits; an error for add/sub/mul/sqr/div/mod/shift/import/export on these sizes is a "
-        "violation (unexpected-error). Not checked (don't care): negative modulus, modulus 1 for invmod/Montgomery, even moduli for the Montgomery helpers, negative operands of the "
+        "modulus, exponent 0 or >= P (documented restrictions), 2expt beyond 128 digits; an error for add/sub/mul/sqr/div/mod/shift/import/export with all operands <= 64 digits (4096 bits, the largest "
+        "supported key size) is a violation (unexpected-error); with 65- or 96-digit operands it is counted as error-returned. Not checked (don't care): negative modulus, modulus 1 for invmod/Montgomery, even moduli for the Montgomery helpers, negative operands of the "
         "modular operations; invmod of a>=m may return any representative congruent to the inverse. non-trivial = the bundle compared at least one successful MatrixSSL result with BN.";
     cfg.assumptions[0] = "OpenSSL BN implements exact integer arithmetic";
     cfg.assumptions[1] = "operands are built directly in pstm_int (digits, used, sign) so that import is tested independently of the other operations";
@@ -696,6 +709,7 @@ int main(int argc, char **argv)
                 fprintf(stderr, "bad group descriptor: %s\n", replay);
                 return 2;
             }
+            g_replay_mode = 1;
             run_grp(&g);
             for (j = 0; j < G.nf; j++)
             {
